@@ -3,6 +3,8 @@
 mod dumps_parse;
 #[path = "dumps_write.rs"]
 mod dumps_write;
+#[path = "dumps_util.rs"]
+mod dumps_util;
 
 pub fn dump(which: &[String]) {
     let all = which.is_empty();
@@ -15,6 +17,8 @@ pub fn dump(which: &[String]) {
         println!("format {}", cfg!(feature = "format"));
         println!("std {}", cfg!(feature = "std"));
     }
+    // lexical-util dispatch functions: digits, int_limits
+    dumps_util::dump(&want);
     // number→string side: dragonbox, grisu, int_tables, sizes
     dumps_write::dump_write(&want);
     // string->float tables and limits (lemire, small_powers, large_powers, bellerophon, float_consts)
